@@ -240,7 +240,12 @@ def evidence(pid, tier, seed, mod, results, wall, nviol, known_hits, extra_cov=N
             "discharged": discharged,
             "checker_cmd": (proof[0].cmds[-1] if proof and proof[0].cmds else "cbmc --sat-solver cadical <flags> b.gb") +
                            "   (after: goto-cc -DASCON_SUITE_VERIF ...; goto-instrument --dfcc <harness> --enforce-contract <f> --replace-call-with-contract <g> --apply-loop-contracts)",
-            "trusted_base": TRUSTED_BASE + list(getattr(mod, "TRUSTED", [])),
+            "trusted_base": TRUSTED_BASE + list(getattr(mod, "TRUSTED", [])) +
+                            (["assembly lifters tools/lift_*.py: the instruction-semantics tables stated at the top of each lifter, the calling "
+                              "conventions (argument registers / stack slots, callee-saved sets, narrow arguments as each ABI defines them), "
+                              "and the assembler translating the text it is given; lifted: " +
+                              ", ".join(sorted(set(r.group.lift[0] for r in main if getattr(r.group, "lift", None))))]
+                             if any(getattr(r.group, "lift", None) for r in main) else []),
             "explanation": getattr(mod, "EXPLANATION", ""),
             "functions_under_contract": functions,
             "backend": "CBMC 6.11.0 SAT (CaDiCaL)",
